@@ -73,7 +73,14 @@ def make_vect_envs(
 
     make_env = make_env or default_make_env
 
-    return vectorize([make_env for _ in range(num_envs)])
+    # The training loops record one transition per env.step call and expect a finished
+    # sub-environment to be reset within that step (gymnasium < 1.0 behaviour); the
+    # default of gymnasium >= 1.0 spends an extra step, whose action is ignored, on it
+    kwargs = {}
+    if hasattr(gym.vector, "AutoresetMode"):
+        kwargs["autoreset_mode"] = gym.vector.AutoresetMode.SAME_STEP
+
+    return vectorize([make_env for _ in range(num_envs)], **kwargs)
 
 
 def make_multi_agent_vect_envs(
